@@ -20,11 +20,20 @@ def state_values(mod):
                         yield a
 
 
-def real_table(mod, names: accir.Names):
-    """[(state value id, [(field id, value id)...] in dict order)] from the real infer_state_of."""
+def find_func(mod, fn: str):
+    from xdsl.dialects import func
+    for op in mod.body.block.ops:
+        if isinstance(op, func.FuncOp) and op.sym_name.data == fn:
+            return op
+    raise KeyError(fn)
+
+
+def real_table(mod, names: accir.Names, fn: str = "f"):
+    """[(state value id, [(field id, value id)...] in dict order)] from the real infer_state_of,
+    for every state-typed value of function `fn`."""
     from snaxc.inference.trace_acc_state import infer_state_of
     out = []
-    for v in state_values(mod):
+    for v in state_values(find_func(mod, fn)):
         d = infer_state_of(v)
         out.append((names.val(v), [(names.field(k), names.val(x)) for k, x in d.items()]))
     return out
@@ -54,7 +63,7 @@ class Staged:
             self.before = accir.convert_module(mod, self.names)[fn]
             accir.trace_states(mod)
             self.traced = accir.convert_module(mod, self.names)[fn]
-            self.table = real_table(mod, self.names)
+            self.table = real_table(mod, self.names, fn)
             self.traced_text = accir.print_module(mod)
             if want_steps:
                 self.steps = record_dedup(mod, self.names, fn, hoist)
@@ -84,7 +93,7 @@ def record_dedup(mod, names, fn, hoist=True):
             if not isinstance(op, accfg.SetupOp):
                 return orig(op, rewriter)
             before = accir.convert_module(mod, names)[fn]
-            tb = real_table(mod, names)
+            tb = real_table(mod, names, fn)
             target = names.val(op.out_state)
             was = rewriter.has_done_action
             rewriter.has_done_action = False
